@@ -214,11 +214,33 @@ def memberless_base(repo):
     raise TranslateError('_get_type_info: unrecognised base class test %r' % t)
 
 
+def soap_inplace(repo):
+    fn = find_function(_parse(repo, 'spyne/protocol/soap/soap11.py'), ['Soap11', 'serialize'])
+    src = _u(fn)
+    env = "ctx.out_document = etree.Element('{%s}Envelope' % self.ns_soap_env, nsmap=nsmap)"
+    if env not in src or 'nsmap = self.app.interface.nsmap' not in src:
+        raise TranslateError('Soap11.serialize: unrecognised envelope construction')
+    sub = "ctx.out_body_doc = out_body_doc = etree.SubElement(ctx.out_document, '{%s}Body' % self.ns_soap_env)"
+    free = "ctx.out_body_doc = out_body_doc = etree.Element('{%s}Body' % self.ns_soap_env)"
+    moved = 'ctx.out_document.append(ctx.out_body_doc)' in src or '.insert(' in src or '.extend(' in src
+    hdr = "ctx.out_header_doc = soap_header_elt = etree.SubElement(ctx.out_document, '{%s}Header' % self.ns_soap_env)"
+    if hdr not in src:
+        raise TranslateError('Soap11.serialize: unrecognised header construction')
+    if free in src and moved and sub not in src:
+        return False
+    if sub in src and free not in src and not moved:
+        # the header element must be created before the body element (document order, nothing is moved)
+        if src.index(hdr) > src.index(sub):
+            raise TranslateError('Soap11.serialize: Header is created after Body')
+        return True
+    raise TranslateError('Soap11.serialize: unrecognised body construction')
+
+
 def generate(repo):
     b = lambda x: 'true' if x else 'false'
     orig, same, isinst = gpt(repo)
     vals = [flat_parent_first(repo), xml_parent_first(repo), orig, same, isinst, sub_same_ns(repo),
-            type_decl(repo), type_keep(repo), xsi_guard(repo), memberless_base(repo)]
+            type_decl(repo), type_keep(repo), xsi_guard(repo), memberless_base(repo), soap_inplace(repo)]
     text = ('(** GENERATED by harness/translate/c16shape.py from the working tree; do not edit. *)\n'
             'From SpyneV Require Import C16.Model.\n'
             'Definition shape_src : xshape := mkshape %s.\n' % ' '.join(b(v) for v in vals))
